@@ -30,7 +30,7 @@ type Val struct {
 	// "scratch" each token is only valid until the next one is asked for (as
 	// with an *xml.Decoder).
 	PayForm string
-	ErrVal  *Val     // for stanzas: the stanza error used with the Error helper
+	ErrVal  *Val // for stanzas: the stanza error used with the Error helper
 
 	// Hostile values contain characters XML cannot represent (NUL, U+FFFE,
 	// invalid UTF-8, ...): only well-formedness and agreement are judged.
